@@ -124,11 +124,29 @@ package core
 //@   ensures [sound] forall i :: 0 <= i && i < len(result) ==> result[i] != nil && allocated(result[i]) && result[i].meta != nil && in(bc.Stores.stores, result[i].meta.Id) && bc.Stores.stores[result[i].meta.Id] == result[i]
 //@   modifies nothing
 
-// The number of region peers a store holds (leader + follower + learner index sizes); trusted here, see C07.
-//@ func (*BasicCluster).GetStoreRegionCount
+// The number of region peers a store holds: the sizes of ALL THREE per-store indexes - leader, follower and learner (a
+// store whose only peers are learners, e.g. a TiFlash store, is not empty). The index sizes themselves: see C07.
+//@ func (*RegionsInfo).GetStoreLeaderCount
 //@   assumed
-//@   option event GetStoreRegionCount
+//@   ensures 0 <= result && result <= 281474976710656
 //@   modifies nothing
+//@ func (*RegionsInfo).GetStoreFollowerCount
+//@   assumed
+//@   ensures 0 <= result && result <= 281474976710656
+//@   modifies nothing
+//@ func (*RegionsInfo).GetStoreLearnerCount
+//@   assumed
+//@   ensures 0 <= result && result <= 281474976710656
+//@   modifies nothing
+//@ func (*BasicCluster).GetStoreRegionCount
+//@   props C14
+//@   option event GetStoreRegionCount
+//@   option nosafety
+//@   ensures [leaders-followers-and-learners] result == callres("GetStoreLeaderCount", 1) + callres("GetStoreFollowerCount", 1) + callres("GetStoreLearnerCount", 1)
+//@   at GetStoreLeaderCount 1 assert [of-this-store] arg0 == storeID && recv == bc.Regions
+//@   at GetStoreFollowerCount 1 assert [of-this-store] arg0 == storeID && recv == bc.Regions
+//@   at GetStoreLearnerCount 1 assert [of-this-store] arg0 == storeID && recv == bc.Regions
+//@   modifies ghost evres
 
 // ================= C17: loading stores and regions back, pruning =================
 //@ opaque github.com/tikv/pd/pkg/encryption::EncryptRegion, github.com/tikv/pd/pkg/encryption::DecryptRegion
@@ -547,6 +565,7 @@ package core
 //@ func (*RegionStorage).DeleteRegion
 //@   props C06 C17
 //@   ensures [no-longer-pending] !in(s.batchRegions, callres("regionPath", 1))
+//@   ensures [removed-from-the-kv-too] result == nil ==> !kvhas[callres("regionPath", 1)]
 //@   ensures [others-stay-pending] forall k string :: {in(s.batchRegions, k)} k != callres("regionPath", 1) ==> in(s.batchRegions, k) == old(in(s.batchRegions, k)) && s.batchRegions[k] == old(s.batchRegions[k])
 //@   option event rsDelete
 //@   option nosafety
